@@ -54,7 +54,7 @@ func (tr trial) String() string {
 }
 
 var opNames = []string{"Noop", "Status", "Fetch", "Search", "UIDSearch", "AppendSync", "AppendNonSync", "List", "Capability", "Caps", "State", "Mailbox", "Enable", "Store", "Idle", "Login",
-	"Noop", "Status", "Fetch", "BigFetchCollect", "BigFetchLag", "BigFetchLag", "LoginLit", "Search2", "Logout", "FetchBigLiteral", "FetchBigLiteral", "Mailbox", "Noop"}
+	"Noop", "Status", "Fetch", "BigFetchCollect", "BigFetchLag", "BigFetchLag", "LoginLit", "Search2", "Logout", "FetchBigLiteral", "FetchBigLiteral", "Mailbox", "Noop", "AppendCloseTwice", "AppendCloseTwice"}
 
 const bigN = 300
 
@@ -429,7 +429,7 @@ func runTrial(t fataler, tr trial) int64 {
 						_, err := c.UIDSearch(&imap.SearchCriteria{}, &imap.SearchOptions{ReturnAll: true}).Wait()
 						return err
 					})
-				case "AppendSync", "AppendNonSync":
+				case "AppendSync", "AppendNonSync", "AppendCloseTwice":
 					size := 20
 					if op == "AppendSync" {
 						size = 5000
@@ -439,6 +439,13 @@ func runTrial(t fataler, tr trial) int64 {
 						cmd.Write(bytes.Repeat([]byte("x"), size))
 						cmd.Close()
 						_, err := cmd.Wait()
+						if op == "AppendCloseTwice" {
+							// closing a finished command again (a deferred Close after
+							// the explicit one) must not touch what other goroutines
+							// are writing meanwhile
+							runtime.Gosched()
+							cmd.Close()
+						}
 						return err
 					})
 				case "List":
@@ -590,8 +597,11 @@ func TestReplayScenarios(t *testing.T) {
 		runTrial(t, trial{workers: [][]string{{"FetchBigLiteral"}, {"Noop", "Noop", "Noop"}}, dis: disruptor{kind: "client-close", after: 3 + i%2}})
 		// mailbox summary read by several goroutines while unilateral updates arrive
 		runTrial(t, trial{workers: [][]string{{"Mailbox", "Mailbox", "Mailbox", "Mailbox"}, {"Noop", "Noop", "Noop"}, {"Mailbox", "Noop", "Mailbox"}}, dis: disruptor{kind: "none"}})
-		ev.EvalN(9)
+		// a finished APPEND closed a second time while other goroutines are in the middle of theirs
+		runTrial(t, trial{workers: [][]string{{"AppendCloseTwice", "AppendCloseTwice"}, {"AppendSync", "AppendSync"}, {"Noop", "Search2", "Noop"}, {"AppendCloseTwice", "Idle"}}, dis: disruptor{kind: "none"}, noLitMinus: true})
+		ev.EvalN(10)
 	}
+	ev.NonTrivial("scenario:append-closed-twice-vs-other-writers")
 	ev.NonTrivial("scenario:close-during-literal-streaming")
 	ev.NonTrivial("scenario:mailbox-snapshot-vs-updates")
 	ev.NonTrivial("scenario:write-error-after-logout-during-fetch")
